@@ -66,6 +66,38 @@ def run(ctx):
     else:
         what = "_validate: raise ValidationError exactly when asked and the result is False, else return the result"
         ctx.check("C10.R2", what, not bad_ret and not bad_raise and bool(raises_s), vf.where(bad_ret[0].node) if bad_ret else vf.where(), f"_validate: path returns `{bad_ret[0].text[:60]}` without the raise-iff-False test" if bad_ret else (f"_validate: raises under {sorted(bad_raise[0].facts)[:3]}" if bad_raise else ""), "validate must raise in precisely the False cases when raise_errors is set, and return the verdict otherwise")
+    # the verdict is the type validator's (or the referenced definition's): a constant verdict is returned only for
+    # an absent value under `strict`
+    for s in rets_s:
+        if isinstance(s.expr, ast.Constant) and isinstance(s.expr.value, bool):
+            absent = any(x.replace(" ", "") in (f"{D}isNoValue", f"NoValueis{D}") for x in s.facts)
+            strict = any("'strict'" in x and not x.startswith("not ") for x in s.facts)
+            if s.expr.value is False and absent and strict:
+                continue
+            ctx.violation("C10.R2", "_validate: the verdict is the type validator's", vf.where(s.node), f"_validate: returns the constant {s.text} under {sorted(s.facts)[:4]}", "a datum is accepted or rejected without (or whatever) the validator of its type says: values the writers accept (e.g. the last representable date, a time of day) are rejected, or values they reject accepted")
+    ctx.holds("C10.R2", "_validate: constant verdicts only for an absent value under strict (checked per path)", vf.where())
+    # the union validator tries every branch: in the loop that is not selected by a (name, value) hint, no path
+    # from one branch to the next avoids the validation of that branch
+    vu = V.funcs("union")[0]
+    ucfg = cfg_of(vu)
+    hints = {n.targets[0].elts[0].id for n in walk_local(vu.node) if isinstance(n, ast.Assign) and isinstance(n.targets[0], ast.Tuple) and len(n.targets[0].elts) == 2 and isinstance(n.targets[0].elts[0], ast.Name) and isinstance(n.value, ast.Name)}
+    tried = 0
+    for loop in [n for n in walk_local(vu.node) if isinstance(n, ast.For)]:
+        vcs = [c for st in loop.body for c in ast.walk(st) if isinstance(c, ast.Call) and isinstance(c.func, ast.Name) and c.func.id == "_validate"]
+        if not vcs:
+            continue
+        inside = {id(x) for st in loop.body for x in ast.walk(st)}
+        hinted = any(t.kind == "test" and id(t.ast) in inside and names_in(t.ast) & hints for c in vcs for (t, lab) in ucfg.guards_of(ucfg.node_of(c)))
+        if hinted:
+            continue
+        tried += 1
+        it = ucfg.node_of(loop.iter)
+        starts = [m for (m, lab) in it.succ if lab == "body"]
+        vn = [ucfg.node_of(c) for c in vcs]
+        ok = all(m in vn or ucfg.must_pass(m, it, vn, skip_labels=("exc",)) for m in starts)
+        ctx.check("C10.R2", f"{vu.qualname}: every branch of the union is tried", ok, vu.where(loop), f"{vu.qualname}: a path through the branch loop reaches the next branch without validating this one", "a branch is skipped on the strength of something other than its own validator (the python type of the datum, a cache, ...): values that conform to it through a logical-type conversion or a subclass are rejected, while the writers, which try every branch, accept them")
+    if tried == 0:
+        ctx.unrecognised("C10.R2", f"{vu.qualname}: every branch of the union is tried", vu.where(), "no loop over the branches with an unhinted _validate call found")
     for kind in ("array", "map", "record"):
         f = V.funcs(kind)[0]
         calls = [n for n in walk_local(f.node) if isinstance(n, ast.Call) and isinstance(n.func, ast.Name) and n.func.id == "_validate"]
